@@ -466,6 +466,66 @@ pub fn giant_op(a: &[&str]) -> Option<String> {
             });
             Some(tail(fmt_opt(r), pos.to_string(), allocs))
         }
+        "iter" => {
+            // `giant iter <len> <pos,pos,...>`: `memchr_iter(0x61, hay)` driven alternately from
+            // both ends; value: the positions in yield order
+            let mut pos: Vec<usize> = Vec::new();
+            for d in a[2].split(',') {
+                let at: usize = d.parse().ok()?;
+                if at >= len {
+                    return None;
+                }
+                g.put(at, &[0x61]);
+                pos.push(at);
+            }
+            pos.sort();
+            pos.dedup();
+            let mut got: Vec<usize> = Vec::with_capacity(pos.len() + 2);
+            let (_, allocs) = alloc_probe::measure(|| {
+                let mut it = memchr::memchr_iter(0x61, g.slice());
+                let mut front = true;
+                loop {
+                    let r = if front { it.next() } else { it.next_back() };
+                    front = !front;
+                    match r {
+                        Some(i) if got.len() <= pos.len() => got.push(i),
+                        _ => break,
+                    }
+                }
+            });
+            let mut want: Vec<usize> = Vec::new();
+            let (mut lo, mut hi) = (0usize, pos.len());
+            let mut front = true;
+            while lo < hi {
+                if front {
+                    want.push(pos[lo]);
+                    lo += 1;
+                } else {
+                    hi -= 1;
+                    want.push(pos[hi]);
+                }
+                front = !front;
+            }
+            let j = |v: &Vec<usize>| v.iter().map(|x| x.to_string()).collect::<Vec<_>>().join(";");
+            Some(tail(j(&got), j(&want), allocs))
+        }
+        "rmemmem" => {
+            // `giant rmemmem <len> <needle> <pos>`: `FinderRev::new(needle).rfind(hay)`, the needle
+            // written once at `pos` (far from the end) and its second half near the end
+            if a.len() != 4 {
+                return None;
+            }
+            let needle = parse_bytes(a[2])?;
+            let pos: usize = a[3].parse().ok()?;
+            if needle.is_empty() || needle.contains(&0) || pos + needle.len() + 64 > len {
+                return None;
+            }
+            g.put(pos, &needle);
+            g.put(len - needle.len(), &needle[needle.len() / 2..]);
+            let f = memchr::memmem::FinderRev::new(&needle);
+            let (r, allocs) = alloc_probe::measure(|| f.rfind(g.slice()));
+            Some(tail(fmt_opt(r), pos.to_string(), allocs))
+        }
         "memmem" => {
             if a.len() != 5 {
                 return None;
